@@ -22,7 +22,6 @@ C06_OK(ev, i) == LET a == Base(ev, i) IN
 C10_OK(ev, i) == LET a == Base(ev, i) b == Base2(ev, i) IN
   IF ev.rel.mode = "side"
   THEN /\ SideBySide(a.rows, b.rows, ev.rows, ev.rel.at)
-       /\ \A r \in 1..Len(a.wid) : \A c \in 1..Len(a.wid[r]) : a.wid[r][c] = 1   \* columns = characters
        /\ UnionDoc(a.doc, b.doc, ev.doc, 8000 * ev.rel.at, 0)
   ELSE /\ Stacked(a.rows, b.rows, ev.rows, ev.rel.gap)
        /\ UnionDoc(a.doc, b.doc, ev.doc, 0, 16000 * (Len(a.rows) + ev.rel.gap))
@@ -46,6 +45,7 @@ Holds(ev, i, p) ==
     [] p = "C09" -> C09_OK(ev)
     [] p = "C09run" -> C09run_OK(ev)
     [] p = "C04" -> C04_OK(ev)
+    [] p = "C04q" -> C04q_OK(ev)
     [] p = "C13" -> C13_OK(ev)
     [] p = "C14arrow" -> C14arrow_OK(ev)
     [] p = "C14bullet" -> C14bullet_OK(ev)
@@ -75,6 +75,7 @@ NonTrivial(ev, i, p) ==
     [] p = "C02" -> C02_NT(ev)
     [] p = "C08" -> C08_NT(ev)
     [] p = "C04" -> C04_NT(ev)
+    [] p = "C04q" -> HasQuoted(DrawCells(ev))
     [] p \in {"C13", "C14arrow", "C14bullet", "C14corner", "C18"} -> TRUE
     [] p = "C16legend" -> Len(ev.legend.entries) > 0
     [] p = "C16tags" -> Len(ev.tags) > 0
